@@ -48,11 +48,14 @@ def run(cx):
     nontriv = set()
     checked = 0
     # ---- V leg: random programs
-    batches = [(3, 60, n // 2), (4, 90, n // 2)]
-    for bi, (depth, budget, cnt) in enumerate(batches):
+    # the third batch mixes in scope probes (one statement in 7): most of those programs must be rejected by
+    # the compiler, which Lang!StaticBad decides
+    batches = [(3, 60, n // 2, 0), (4, 90, n // 2, 0), (3, 60, n // 3, 7)]
+    rejected = 0
+    for bi, (depth, budget, cnt, ill) in enumerate(batches):
         cases_path = cx.path("rand%d.ndjson" % bi)
         cx.run([lang, "gen", "-seed", str(cx.seed * 1000 + bi), "-n", str(cnt), "-depth", str(depth),
-                "-budget", str(budget), "-out", cases_path])
+                "-budget", str(budget), "-illscoped", str(ill), "-out", cases_path])
         cases = vlib.read_ndjson(cases_path)
         by_id = {c["id"]: c for c in cases}
         mism, unknown = langlib.tlc_conform(cx, cases, prefix="rand%d" % bi)
@@ -63,7 +66,11 @@ def run(cx):
             if c["id"] not in ukn and langlib.nontrivial(c):
                 nontriv.add(c["src"])
         checked += len(cases) - len(unknown)
-        confirm(cx, lang, cases_path, mism, by_id, "random-d%d" % depth)
+        confirm(cx, lang, cases_path, mism, by_id, "random-d%d%s" % (depth, "-scope" if ill else ""))
+        if ill:
+            rejected += len([c for c in cases if c["obs"].get("v") == "compile error"])
+            cx.cover["scope_probe_programs"] = len(cases)
+            cx.cover["scope_probe_programs_rejected_by_compiler"] = rejected
         for c in cases[:2]:
             cx.sample({"src": c["src"], "observed": {k: v for k, v in c["obs"].items() if k in ("k", "v")}})
     # ---- G leg: operator pairs (minimal parentheses; tree must equal the fully parenthesised one)
